@@ -52,7 +52,7 @@ def _triples(rec) -> List[Tuple[str, str, str]]:
     return out
 
 
-def _hist_worker(args) -> Dict[str, Any]:
+def _hist_batch(args) -> Dict[str, Any]:
     logging.disable(logging.CRITICAL)
     from .hist import run_history
     from .lean import run_driver
@@ -110,6 +110,32 @@ def _hist_worker(args) -> Dict[str, Any]:
         "sample": sample,
         "t_py": t_py,
         "t_lean": t_lean,
+    }
+
+
+HIST_BATCH = 24      # histories per driver run inside one worker: bounds the memory a worker holds
+
+
+def _hist_worker(args) -> Dict[str, Any]:
+    """a worker's share of the histories, in batches (each batch: generate, run the Lean driver, keep the findings)"""
+    seeds, steps, opts = args
+    parts = [_hist_batch((seeds[i:i + HIST_BATCH], steps, opts)) for i in range(0, len(seeds), HIST_BATCH)]
+    if len(parts) == 1:
+        return parts[0]
+    triples = set()
+    findings: List[Dict[str, Any]] = []
+    for p in parts:
+        triples.update(tuple(t) for t in p["triples"])
+        findings += p["findings"]
+    return {
+        "records": sum(p["records"] for p in parts),
+        "findings": fw.pick(findings, 40),
+        "n_findings": sum(p["n_findings"] for p in parts),
+        "triples": sorted(triples),
+        "skipped": sum(p["skipped"] for p in parts),
+        "sample": next((p["sample"] for p in parts if p["sample"]), None),
+        "t_py": sum(p["t_py"] for p in parts),
+        "t_lean": sum(p["t_lean"] for p in parts),
     }
 
 
